@@ -1,4 +1,5 @@
 import Poly.Proofs.Native
+import Poly.Proofs.NativeWitness
 import Poly.Proofs.NativeCallGraph
 import Poly.Generated.CallGraph
 /-!
@@ -83,5 +84,33 @@ theorem result_follows_tx_order (leafHash : Bytes → Hash) (reg : Registry) (en
     (execTxs leafHash reg env bs (pre ++ post)).2 =
       (execTxs leafHash reg env bs pre).2 ++ (execTxs leafHash reg env (execTxs leafHash reg env bs pre).1 post).2 := by
   rw [execTxs_append]
+
+/-- Handlers that range over a Go map, iteration order as an explicit argument: the consensus operator address
+(`GetCurConOperator` → `AddressFromBookkeepers`) is the same for every iteration order of the peer pool, because the
+collected keys are sorted before they are hashed (`hsort`: the sort is a function of the multiset of keys — true of a
+comparison sort under a total order on serialized keys). -/
+theorem operator_order_independent (sortKeys : List Bytes → List Bytes) (addrOfCode : Bytes → Addr)
+    (hsort : ∀ l l' : List Bytes, List.Perm l l' → sortKeys l = sortKeys l')
+    (peers peers' : List Peer) (h : List.Perm peers peers') :
+    curConOperator sortKeys addrOfCode peers = curConOperator sortKeys addrOfCode peers' :=
+  curConOperator_perm sortKeys addrOfCode hsort peers peers' h
+
+/-- The approval count of `CheckConsensusSigns` (signed consensus peers, consensus peers) and hence its verdict do
+not depend on the iteration order of the peer pool. -/
+theorem consensus_sign_count_order_independent (signed : Bytes → Bool) (peers peers' : List Peer)
+    (h : List.Perm peers peers') :
+    signCount signed peers = signCount signed peers' ∧ quorumReached signed peers = quorumReached signed peers' := by
+  have := signCount_perm signed peers peers' h
+  exact ⟨this, by simp [quorumReached, this]⟩
+
+/-- `hsort` is satisfiable: merge sort under a total, transitive, antisymmetric order is such a function. -/
+example (le : Bytes → Bytes → Bool) (htot : ∀ a b, le a b || le b a) (htr : ∀ a b c, le a b → le b c → le a c)
+    (hanti : ∀ a b, le a b → le b a → a = b) (l l' : List Bytes) (h : List.Perm l l') :
+    l.mergeSort le = l'.mergeSort le := by
+  apply List.Perm.eq_of_pairwise (le := fun a b => le a b = true)
+  · intro a b _ _ h1 h2; exact hanti a b h1 h2
+  · exact List.pairwise_mergeSort (fun a b c => htr a b c) (fun a b => by simpa using htot a b) l
+  · exact List.pairwise_mergeSort (fun a b c => htr a b c) (fun a b => by simpa using htot a b) l'
+  · exact ((List.mergeSort_perm l le).trans h).trans (List.mergeSort_perm l' le).symm
 
 end Poly.Props.C16
